@@ -121,6 +121,16 @@ func C06(tier rt.Tier) int {
 		}
 		runUniverse(rep, u, time.Now().Add(b))
 	}
+	{
+		// keys where one is a prefix of another x block names where one is a suffix of another ("k"+"12" == "k1"+"2")
+		useSuffixNames = true
+		u := universe{name: "ambiguous-key+block-concatenations", parents: []int{-1, 0, 1}, keys: []string{"k", "k1", "k11"}, txns: 1, kinds: []int{0}, depth: 40}
+		if tier == rt.Thorough {
+			u.parents = []int{-1, 0, 1, 1}
+		}
+		runUniverse(rep, u, time.Now().Add(3*per))
+		useSuffixNames = false
+	}
 	capacityScenarios(rep)
 	depthScenarios(rep, []int{0}, false)
 	depthScenarios(rep, []int{0}, true)
